@@ -69,5 +69,6 @@ def run(ctx):
 
 
 def replay(ctx, path):
-    print(open(path).read()[:1500])
-    return 0
+    import sys
+    from ..core import generic_replay
+    return generic_replay(ctx, sys.modules[__name__], path)
